@@ -3,6 +3,8 @@ package main
 import (
 	"fmt"
 	"go/types"
+	"os"
+	"os/exec"
 	"sort"
 	"strings"
 )
@@ -177,6 +179,10 @@ func lemmasAbout(specs *Specs, name string, before int) []*Lemma {
 
 // ProveLemma checks every `ensures` of lemma l.
 func ProveLemma(prog *Prog, specs *Specs, l *Lemma, tier string) (res []OblResult) {
+	return ProveLemmaCtx(prog, specs, l, tier, nil)
+}
+
+func ProveLemmaCtx(prog *Prog, specs *Specs, l *Lemma, tier string, c *checkCtx) (res []OblResult) {
 	pkg := prog.PPkgs[specs.PkgPath].Types
 	x := NewX(prog, specs, modeSummary)
 	x.unfold = map[string]bool{}
@@ -211,6 +217,17 @@ func ProveLemma(prog *Prog, specs *Specs, l *Lemma, tier string) (res []OblResul
 	var goals []string
 	for _, e := range l.Ensures {
 		goals = append(goals, x.evalBool(env, e))
+	}
+	var showTerms []string
+	if show := os.Getenv("GOVC_SHOW"); show != "" {
+		for _, e := range splitTop(show, ';') {
+			if e == "" {
+				continue
+			}
+			for _, s := range x.flatten(x.evalSrc(env, e).V) {
+				showTerms = append(showTerms, s.T)
+			}
+		}
 	}
 	// axioms for opaque functions used (closure)
 	doneAx := map[string]bool{}
@@ -248,7 +265,17 @@ func ProveLemma(prog *Prog, specs *Specs, l *Lemma, tier string) (res []OblResul
 	// instantiate bounded quantifiers at every witness
 	if !l.NoInst {
 		for _, q := range x.quants {
+			var points []string
 			for _, w := range x.witnesses {
+				if q.class != "" && x.witClass[w] != q.class {
+					continue
+				}
+				points = append(points, w)
+			}
+			if q.hi != "" && isAtom(q.hi) {
+				points = append(points, "(- "+q.hi+" 1)")
+			}
+			for _, w := range points {
 				inst := "(" + q.fn + " " + w + ")"
 				var rng []string
 				if q.lo != "" {
@@ -261,26 +288,38 @@ func ProveLemma(prog *Prog, specs *Specs, l *Lemma, tier string) (res []OblResul
 			}
 		}
 	}
+	if c != nil {
+		c.mu.Lock()
+		for _, u := range l.Unfold {
+			c.fns[u+" (derived summary)"] = true
+		}
+		for n := range x.usedOpq {
+			c.fns[n+" (by proved laws)"] = true
+		}
+		for e := range x.externs {
+			c.ext[e] = true
+		}
+		c.mu.Unlock()
+	}
 	base := x.sc.Text() + x.strLitDecls()
 	timeout := 20
 	if tier == "thorough" {
 		timeout = 120
 	}
-	// vacuity: the assumptions must be satisfiable
+	if len(showTerms) > 0 {
+		terms := append(showTerms, x.witnesses...)
+		for i, g := range goals {
+			q := qfVariant(base+"(assert (not "+g+"))\n") + "(check-sat)\n(get-value (" + strings.Join(terms, " ") + "))\n"
+			f := fmt.Sprintf("%s/show%d.smt2", scratch(), i)
+			os.WriteFile(f, []byte(q), 0o644)
+			out, _ := exec.Command("z3-new", "-T:30", f).CombinedOutput()
+			fmt.Printf("---- %s\n%s\n", name(i), out)
+		}
+	}
 	for i, g := range goals {
 		q := base + "(assert (not " + g + "))\n"
-		r := Solve(name(i), q, timeout, true, tier == "thorough")
-		or := OblResult{Name: name(i), Solver: r.Solver, Secs: r.Secs, SMTBytes: len(q), Kind: "lemma", Site: l.Ensures[i], Func: strings.Join(l.Unfold, ","), Query: q, Lemma: l, Goal: g}
-		switch r.Status {
-		case "unsat":
-			or.Status = "proved"
-		case "sat":
-			or.Status = "failed"
-			or.Model = r.Model
-		default:
-			or.Status = "unknown"
-			or.Detail = r.Status + " " + r.Raw
-		}
+		or := decide(name(i), q, timeout, tier == "thorough")
+		or.Kind, or.Site, or.Func, or.Lemma, or.Goal = "lemma", l.Ensures[i], strings.Join(l.Unfold, ","), l, g
 		res = append(res, or)
 	}
 	// one vacuity probe per lemma
@@ -294,4 +333,94 @@ func ProveLemma(prog *Prog, specs *Specs, l *Lemma, tier string) (res []OblResul
 		}
 	}
 	return res
+}
+
+// qfVariant drops every quantified assertion. Fewer assumptions: an unsat
+// answer is still a proof; a sat answer is only a candidate counterexample.
+func qfVariant(q string) string {
+	var b strings.Builder
+	for _, l := range strings.Split(q, "\n") {
+		if strings.HasPrefix(l, "(assert") && (strings.Contains(l, "(forall ") || strings.Contains(l, "(exists ")) {
+			continue
+		}
+		b.WriteString(l)
+		b.WriteByte('\n')
+	}
+	return b.String()
+}
+
+// instVariant drops the quantified facts that were instantiated explicitly
+// at every witness (they have no triggers and only slow the solvers down).
+func instVariant(q string) string {
+	var b strings.Builder
+	for _, l := range strings.Split(q, "\n") {
+		if strings.HasSuffix(l, ";@inst") {
+			continue
+		}
+		b.WriteString(l)
+		b.WriteByte('\n')
+	}
+	return b.String()
+}
+
+// decide runs the full query and its quantifier-free weakening side by side.
+func decide(name, q string, timeout int, thorough bool) OblResult {
+	or := OblResult{Name: name, SMTBytes: len(q), Query: q}
+	type ans struct {
+		r  SolveResult
+		qf bool
+	}
+	ch := make(chan ans, 2)
+	fullq := q
+	q = instVariant(q)
+	if thorough {
+		q = fullq
+	}
+	go func() { ch <- ans{Solve(name, q, timeout, true, thorough), false} }()
+	qf := qfVariant(q)
+	n := 1
+	if qf != q {
+		n = 2
+		go func() { ch <- ans{Solve(name+".qf", qf, timeout, true, false), true} }()
+	}
+	var full, weak *SolveResult
+	for i := 0; i < n; i++ {
+		a := <-ch
+		r := a.r
+		if a.qf {
+			weak = &r
+		} else {
+			full = &r
+		}
+		if r.Status == "unsat" && !thorough {
+			or.Status, or.Solver, or.Secs = "proved", r.Solver, r.Secs
+			if a.qf {
+				or.Solver += " (quantifier-free weakening)"
+			}
+			return or
+		}
+	}
+	switch {
+	case full.Status == "unsat" || (weak != nil && weak.Status == "unsat"):
+		or.Status = "proved"
+		or.Solver, or.Secs = full.Solver, full.Secs
+		if full.Status != "unsat" {
+			or.Solver, or.Secs = weak.Solver+" (quantifier-free weakening)", weak.Secs
+		}
+		if full.Status == "sat" || full.Status == "disagree" {
+			or.Status = "unknown"
+			or.Detail = "solvers disagree: " + full.Raw
+		}
+	case full.Status == "sat":
+		or.Status, or.Solver, or.Secs, or.Model = "failed", full.Solver, full.Secs, full.Model
+	default:
+		or.Status = "unknown"
+		or.Secs = full.Secs
+		or.Detail = full.Status + " " + full.Raw
+		if weak != nil && weak.Status == "sat" {
+			or.Model = weak.Model
+			or.Detail += " (candidate model from the quantifier-free weakening)"
+		}
+	}
+	return or
 }
